@@ -1,5 +1,7 @@
 """Algorithm to check for 'comparison' nodes in a form when the user is in 'complex mode'."""
 
+from math import isfinite
+
 from ufl.algebra import Real
 from ufl.algorithms.map_integrands import map_integrand_dags
 from ufl.argument import Argument
@@ -101,14 +103,15 @@ class CheckComparisons(MultiFunction):
     def power(self, o, base, exponent):
         """Apply to power."""
         o = self.reuse_if_untouched(o, base, exponent)
-        try:
-            # Attempt to diagnose circumstances in which the result must be real.
+        # Attempt to diagnose circumstances in which the result must be real.
+        # Only a literal can be converted: float() of any other expression
+        # point-evaluates it, and for a coefficient, constant or argument that
+        # recursion (Expr.__float__ <-> Terminal.evaluate) does not terminate.
+        if isinstance(exponent, RealValue | Zero):
             exponent = float(exponent)
-            if self.nodetype[base] == "real" and int(exponent) == exponent:
+            if self.nodetype[base] == "real" and isfinite(exponent) and int(exponent) == exponent:
                 self.nodetype[o] = "real"
                 return o
-        except TypeError:
-            pass
 
         self.nodetype[o] = "complex"
         return o
